@@ -67,6 +67,73 @@ impl Impl {
     }
 }
 
+impl Impl {
+    /// the real bytecode of `src` under the same settings as [`Impl::run`], for the model VM
+    fn export(&self, src: &str, opt: bool) -> String {
+        match mg::bytecode::export(if opt { &self.vm_opt } else { &self.vm_noopt }, "mg", src) {
+            Ok(line) => line,
+            Err(e) => format!("skip compile-error {}", e.replace('\n', " ").replace('(', "[").replace(')', "]")),
+        }
+    }
+}
+
+/// untyped view of a canonical outcome: unit / empty record is `(data 0)` for the model VM
+fn norm(s: &str) -> String {
+    s.replace("(rcd)", "(data 0)")
+}
+
+/// generic greedy shrinker: keeps a smaller candidate while `pred` holds
+fn shrink_pred(p: &Program, cap: u32, pred: &mut dyn FnMut(&Program) -> bool) -> (Program, u32) {
+    let mut cur = p.clone();
+    let mut steps = 0u32;
+    let mut attempts = 0u32;
+    'outer: loop {
+        let mut cands = mg::generate::shrink_candidates(&cur.expr);
+        cands.sort_by_key(|c| c.size());
+        let cur_size = cur.expr.size();
+        for c in cands {
+            if c.size() >= cur_size {
+                break;
+            }
+            attempts += 1;
+            if attempts > cap {
+                break 'outer;
+            }
+            let cand = Program { types: cur.types.clone(), expr: c, ty: cur.ty.clone() };
+            if pred(&cand) {
+                cur = cand;
+                steps += 1;
+                continue 'outer;
+            }
+        }
+        break;
+    }
+    (cur, steps)
+}
+
+/// model VM on the real bytecode vs the real VM, for one (program, style, optimiser setting):
+/// Some((model-VM outcome, real outcome)) when they differ
+fn interp_divergence(imp: &mut Impl, vmm: &mut Model, p: &Program, st: &Style, opt: bool) -> Option<(String, String)> {
+    let src = mg::print::to_gluon(p, st);
+    let o = imp.run(p, &src, opt);
+    if matches!(o.class(), "typecheck" | "parse" | "hostpanic") {
+        return None;
+    }
+    let oc = o.canonical();
+    if oc.contains("shape-mismatch") {
+        return None;
+    }
+    let line = imp.export(&src, opt);
+    if line.starts_with("skip") {
+        return None;
+    }
+    let v = vmm.eval(&line);
+    if v.starts_with("(skip") || v == "(fuel)" || v.starts_with("(err malformed") {
+        return None;
+    }
+    if norm(&v) != norm(&oc) { Some((v, oc)) } else { None }
+}
+
 fn class_of(canonical: &str) -> String {
     canonical.split_whitespace().take(2).collect::<Vec<_>>().join(" ")
 }
@@ -293,6 +360,16 @@ fn classify_pair(expected: &str, observed: &str) -> &'static str {
 
 fn main() {
     let a: Vec<String> = std::env::args().collect();
+    if a.len() >= 3 && a[1] == "bytecode" {
+        let text = std::fs::read_to_string(&a[2]).unwrap();
+        let vm = mg::run::new_vm_with(&mg::run::VmOptions { prelude: false, optimize: Some(a.get(3).map_or(true, |s| s != "noopt")) });
+        for src in text.split("\n%%\n") {
+            println!("--- {}", src.trim());
+            println!("{}", mg::run::run(&vm, src).canonical());
+            println!("{:?}", mg::bytecode::export(&vm, "mg", src));
+        }
+        return;
+    }
     if a.len() >= 3 && a[1] == "probe" {
         let text = std::fs::read_to_string(&a[2]).unwrap();
         let vm = mg::run::new_vm();
@@ -307,6 +384,7 @@ fn main() {
     std::panic::set_hook(Box::new(|_| {}));
     let mut imp = Impl::new();
     let mut model = args.extra.get("model").map(|p| Model::start(p));
+    let mut vmmodel = args.extra.get("vmmodel").map(|p| Model::start(p));
 
     if let Some(path) = &args.replay {
         let v: serde_json::Value = serde_json::from_str(&std::fs::read_to_string(path).expect("replay file")).expect("json");
@@ -360,7 +438,16 @@ fn main() {
     let max_shrink: u32 = args.extra.get("max_shrink").and_then(|s| s.parse().ok()).unwrap_or(80);
     let styles = Style::all();
 
+    let mut vm_in = args.file("vm_in.txt");
+    let mut vm_diffs = args.file("vm_diffs.jsonl");
+    let mut last_vm_line = String::new();
+    let mut n_vm_shrunk = 0u32;
+    let vm_random_limit: u64 = args.extra.get("vm_random").and_then(|s| s.parse().ok()).unwrap_or(15000);
+    let mut n_random_seen = 0u64;
     let mut emit = |family: &str, p: &Program, used: &[&'static str], imp: &mut Impl, model: &mut Option<Model>, hist: &mut Hist| {
+        if family == "random" {
+            n_random_seen += 1;
+        }
         let sexp = mg::sexp::program_to_sexp(p);
         let mut any = false;
         for (st, opt) in styles.iter().flat_map(|s| [(s, false), (s, true)]) {
@@ -415,6 +502,40 @@ fn main() {
             }
             writeln!(cases, "{}", cj).unwrap();
             n_cases += 1;
+            // the REAL bytecode of this case for the model VM (three-way comparison)
+            let vmline = if family == "random" && n_random_seen > vm_random_limit {
+                "skip not-sampled".to_string()
+            } else if o.class() == "hostpanic" || o.class() == "parse" {
+                "skip front-end-failure".to_string()
+            } else {
+                imp.export(&src, opt)
+            };
+            if vmline == last_vm_line && !vmline.starts_with("skip") {
+                writeln!(vm_in, "=").unwrap();
+            } else {
+                writeln!(vm_in, "{}", vmline).unwrap();
+            }
+            let vm_live = if vmline.starts_with("skip") { None } else { vmmodel.as_mut().map(|v| v.eval(&vmline)) };
+            last_vm_line = vmline;
+            if let (Some(v), Some(vmm)) = (vm_live.as_ref(), vmmodel.as_mut()) {
+                let executed = !(v.starts_with("(skip") || v == "(fuel)");
+                hist.add(if executed { "model-vm:executed" } else { "model-vm:skipped" });
+                if executed && norm(v) != norm(&oc) {
+                    let mut rec = serde_json::json!({"index": n_cases - 1, "vm": v, "impl": oc, "style": st.name(), "optimize": opt});
+                    if n_vm_shrunk < 6 {
+                        n_vm_shrunk += 1;
+                        let (small, steps) = shrink_pred(p, 3000, &mut |c| interp_divergence(imp, vmm, c, st, opt).is_some());
+                        if let Some((v2, o2)) = interp_divergence(imp, vmm, &small, st, opt) {
+                            let ssrc = mg::print::to_gluon(&small, st);
+                            rec["shrunk"] = serde_json::json!({
+                                "source": ssrc, "sexp": mg::sexp::program_to_sexp(&small), "vm": v2, "impl": o2,
+                                "bytecode": imp.export(&ssrc, opt), "shrink_steps": steps, "constructs": constructs(&small.expr),
+                            });
+                        }
+                    }
+                    writeln!(vm_diffs, "{}", rec).unwrap();
+                }
+            }
             hist.add(&format!("family:{}", family));
             hist.add(&format!("style:{}", st.name()));
             hist.add(if opt { "optimize:on" } else { "optimize:off" });
@@ -428,7 +549,7 @@ fn main() {
                     String::new()
                 };
                 if mo != oc && mo != "(fuel)" {
-                    writeln!(diff_classes, "{}", serde_json::json!({"index": n_cases - 1, "class": prov})).unwrap();
+                    writeln!(diff_classes, "{}", serde_json::json!({"index": n_cases - 1, "class": prov, "vm": vm_live})).unwrap();
                 }
                 if mo != oc && mo != "(fuel)" && n_shrunk < max_shrink && *shrunk_per_class.entry(prov.clone()).or_insert(0u32) < 2 {
                     *shrunk_per_class.get_mut(&prov).unwrap() += 1;
@@ -520,6 +641,8 @@ fn main() {
     cases.flush().unwrap();
     shrunk.flush().unwrap();
     diff_classes.flush().unwrap();
+    vm_in.flush().unwrap();
+    vm_diffs.flush().unwrap();
     gvh::out::write_json(
         &args.out.join("stats.json"),
         &serde_json::json!({
